@@ -14,6 +14,7 @@ import (
 	"errors"
 	"fmt"
 	"io"
+	"math"
 	"sync"
 	"time"
 
@@ -201,6 +202,10 @@ func (uw *unmarshalWork) Unmarshal() {
 			if row.Timestamp == NoTimestamp {
 				row.Timestamp = currentTs
 			} else {
+				if row.Timestamp > math.MaxInt64/tsMultiplier {
+					err = fmt.Errorf("timestamp %d is out of range for the given precision", row.Timestamp)
+					break
+				}
 				row.Timestamp *= tsMultiplier
 			}
 		}
@@ -216,6 +221,10 @@ func (uw *unmarshalWork) Unmarshal() {
 			if row.Timestamp == NoTimestamp {
 				row.Timestamp = currentTs
 			} else {
+				if row.Timestamp > math.MaxInt64/tsMultiplier {
+					err = fmt.Errorf("timestamp %d is out of range for the given precision", row.Timestamp)
+					break
+				}
 				row.Timestamp *= tsMultiplier
 			}
 		}
